@@ -30,6 +30,8 @@ def _walk_own(fnode):
     while todo:
         n = todo.pop()
         yield n
+        if isinstance(n, (ast.FunctionDef, ast.AsyncFunctionDef, ast.Lambda, ast.ClassDef)):
+            continue
         for c in ast.iter_child_nodes(n):
             if isinstance(c, (ast.FunctionDef, ast.AsyncFunctionDef, ast.Lambda, ast.ClassDef)):
                 continue
@@ -93,7 +95,7 @@ def _param_names(pred):
 
 
 def _env_of(interp, frame, extra):
-    env = {}
+    env = {'ghost': interp.st.ghost, 'trace': interp.st.trace}     # ghost state / events (unless shadowed by a local)
     if interp.collect is not None:
         env['yielded'] = interp.collect[1]
     if frame.info.filename.endswith('functools_model.py'):
@@ -112,6 +114,7 @@ def _env_of(interp, frame, extra):
     # indices of the (enclosing) loops with invariants: `_i_<ordinal>`
     for o, t in getattr(frame, 'loop_index', {}).items():
         env['_i_%s' % o] = t
+    env.setdefault('trace', interp.st.trace)
     env.update(extra)
     return env
 
